@@ -41,7 +41,7 @@ ORDER = {ConnectionState.UNINITIALIZED: 0, ConnectionState.CONNECTING: 1, Connec
 KINDS = ('incoming', 'out_direct', 'out_indirect', 'connect_back')
 PRE_INIT_ENDS = ('fin_before_init', 'rst_before_init', 'silent_before_init', 'garbage_init', 'unknown_code_init',
                  'unknown_pierce', 'truncated_init_fin', 'truncated_init_silent')
-OUT_FAIL_ENDS = ('refused', 'blackhole', 'reset_on_connect', 'cancel_connect')
+OUT_FAIL_ENDS = ('refused', 'blackhole', 'reset_on_connect', 'cancel_connect', 'disconnect_connecting', 'bad_port')
 LIVE_ENDS = ('local_disconnect', 'local_disconnect_x2', 'local_disconnect_x3', 'remote_fin', 'remote_rst',
              'rst_mid_frame', 'read_timeout', 'write_timeout', 'disconnect_during_burst', 'never')
 
@@ -61,7 +61,7 @@ def make_episode(rng, i):
     if kind == 'incoming' and r < 0.4:
         ep['end'] = rng.choice(PRE_INIT_ENDS)
     elif kind in ('out_direct', 'connect_back') and r < 0.3:
-        ep['end'] = rng.choice(OUT_FAIL_ENDS if kind == 'out_direct' else OUT_FAIL_ENDS[:3])
+        ep['end'] = rng.choice(OUT_FAIL_ENDS if kind == 'out_direct' else OUT_FAIL_ENDS[:3] + OUT_FAIL_ENDS[4:])
     else:
         ep['end'] = rng.choice(LIVE_ENDS)
     if ep['typ'] == 'F' and ep['end'] in F_SKIP:
@@ -110,7 +110,7 @@ def corpus(tier):
             for k in range(0, 5):
                 out.append({'seed': 1, 'net': net, 'mode': mode,
                             'episodes': [dict(base, kind='out_direct', obf=False, typ='P', end=end, plus_iter=k)]})
-        for end in OUT_FAIL_ENDS[:3]:
+        for end in OUT_FAIL_ENDS[:3] + OUT_FAIL_ENDS[4:]:
             out.append({'seed': 1, 'net': net, 'mode': mode,
                         'episodes': [dict(base, kind='connect_back', obf=False, typ='P', end=end)]})
     return out
@@ -286,7 +286,7 @@ def _run(world: World, plan):
                 return ('blackhole', None)
             if end == 'reset_on_connect':
                 return ('accept_reset', 0.02)
-            if end == 'cancel_connect':
+            if end in ('cancel_connect', 'disconnect_connecting'):
                 return ('slow', 3.0)
         return None
     world.net.connect_hook = connect_hook
@@ -454,8 +454,15 @@ def _run(world: World, plan):
                 kwargs = {}
                 if kind == 'out_direct' and ep['obf']:
                     kwargs = {'ip': peer.host.ip, 'port': peer.obfuscated_port, 'obfuscate': True}
+                if ep['end'] == 'bad_port':
+                    # the server hands out an address no socket accepts (ports are uint32 on the wire)
+                    fired['address_with_bad_port'] += 1
+                    server.addresses[ep['peer']] = (peer.host.ip, 70000, 0)
+                    kwargs = {}
                 call = world.call(alice, f"cpc-{ep['peer']}", network.create_peer_connection, ep['peer'], ep['typ'], **kwargs)
                 calls[ep['peer']] = call
+                if ep['end'] == 'disconnect_connecting':
+                    await disconnect_connecting(ep, peer)
                 if ep['end'] == 'cancel_connect':
                     await asyncio.sleep(0.1 + 0.3 * ep['plus_iter'])
                     for _ in range(ep['plus_iter']):
@@ -469,11 +476,36 @@ def _run(world: World, plan):
                     port = 0
                 else:
                     obf = 0
+                if ep['end'] == 'bad_port':
+                    fired['address_with_bad_port'] += 1
+                    port, obf = 70000, 0
                 server.send_to('alice', M.ConnectToPeer.Response(
                     username=ep['peer'], typ=ep['typ'], ip=ip, port=port, ticket=5000 + int(ep['peer'][1:]),
                     privileged=False, obfuscated_port_amount=1 if obf else 0, obfuscated_port=obf))
+                if ep['end'] == 'disconnect_connecting':
+                    await disconnect_connecting(ep, peer)
         if ep['end'] in LIVE_ENDS:
             await local_end(ep)
+
+    async def disconnect_connecting(ep, peer):
+        """A local disconnect request for a connection whose TCP connect is still in progress (the application holds the
+        object from the CONNECTING notification)."""
+        t_end = loop.time() + 20.0
+        while loop.time() < t_end:
+            target = [c for c in list(network.peer_connections)
+                      if c.hostname == peer.host.ip and c.state == ConnectionState.CONNECTING]
+            if target:
+                break
+            await asyncio.sleep(0.01)
+        else:
+            return
+        await asyncio.sleep(0.3 * ep['plus_iter'])
+        for _ in range(ep['plus_iter']):
+            await asyncio.sleep(0)
+        for c in target:
+            if c.state == ConnectionState.CONNECTING:
+                fired['disconnect_while_connecting'] += 1
+                world.call(alice, f"disc-connecting-{ep['peer']}", c.disconnect, CloseReason.REQUESTED)
 
     quiescent_checks = []
 
